@@ -218,6 +218,38 @@ func c12ops(tier string) []c12op {
 			_, err := r.Start()
 			return fmt.Sprint(err != nil)
 		}},
+		// launches refused before the fork: a string the kernel interface cannot carry (NUL byte) in each place a string goes
+		c12op{"forkexec-refused-before-fork(NUL in an argument)", func(e *c12env, nonce string) string {
+			r := &forkexec.Runner{Args: []string{probe("tree"), nonce + "\x00x", "-", "exit:0"}, Env: []string{}, Files: stdioNull()}
+			_, err := r.Start()
+			return fmt.Sprint(err != nil)
+		}},
+		c12op{"forkexec-refused-before-fork(NUL in the environment, callback)", func(e *c12env, nonce string) string {
+			r := &forkexec.Runner{Args: []string{probe("tree"), nonce, "-", "exit:0"}, Env: []string{"A=b\x00c"}, Files: stdioNull(), SyncFunc: func(int) error { return nil }}
+			_, err := r.Start()
+			return fmt.Sprint(err != nil)
+		}},
+		c12op{"forkexec-refused-before-fork(NUL in the work directory)", func(e *c12env, nonce string) string {
+			r := &forkexec.Runner{Args: []string{probe("tree"), nonce, "-", "exit:0"}, Env: []string{}, Files: stdioNull(), WorkDir: "/tmp\x00x"}
+			_, err := r.Start()
+			return fmt.Sprint(err != nil)
+		}},
+		c12op{"forkexec-refused-before-fork(NUL in the host name)", func(e *c12env, nonce string) string {
+			r := &forkexec.Runner{Args: []string{probe("tree"), nonce, "-", "exit:0"}, Env: []string{}, Files: stdioNull(), CloneFlags: unix.CLONE_NEWUTS, HostName: "h\x00h"}
+			_, err := r.Start()
+			return fmt.Sprint(err != nil)
+		}},
+		c12op{"container-refused-before-fork(NUL in the environment)", func(e *c12env, nonce string) string {
+			p := execveParam([]string{"/probe/tree", nonce, "-", "exit:0"})
+			p.Env = []string{"GREETING=hello\x00world"}
+			return statusName(e.c.Execve(context.Background(), p).Status)
+		}},
+		c12op{"container-refused-before-fork(NUL in an argument)", func(e *c12env, nonce string) string {
+			return statusName(e.c.Execve(context.Background(), execveParam([]string{"/probe/tree", nonce + "\x00", "-", "exit:0"})).Status)
+		}},
+		c12op{"namespace-runner-refused-before-fork(NUL in the environment)", func(e *c12env, nonce string) string {
+			return statusName(runUnshare(context.Background(), []string{"/probe/tree", nonce, "-", "exit:0"}, func(r *unshare.Runner) { r.Env = []string{"A=b\x00c"} }).Status)
+		}},
 		c12op{"container-not-found", func(e *c12env, nonce string) string {
 			return statusName(e.c.Execve(context.Background(), execveParam([]string{"no-such-program", nonce})).Status)
 		}},
